@@ -61,6 +61,14 @@ def apply_breach(case, solution, b):
         if cls == 'LimitDistance': lim['maxDistance'] = float(tour['statistic']['distance'] - 2)
         elif cls == 'LimitDuration': lim['maxDuration'] = float(tour['statistic']['duration'] - 2)
         else: lim['tourSize'] = sum(1 for st in tour['stops'] for x in st['activities'] if x['type'] not in ('departure', 'arrival')) - 1
+    elif cls == 'ShiftEndsEarly':
+        sh = vtype(tour)['shifts'][tour['shiftIndex']]
+        sh['end']['latest'] = ts_add(tour['stops'][-1]['time']['arrival'], -2)
+    elif cls == 'ShiftStartsLate':
+        sh = vtype(tour)['shifts'][tour['shiftIndex']]
+        sh['start']['earliest'] = ts_add(tour['stops'][0]['time']['departure'], 2)
+        if sh['start'].get('latest') and sh['start']['latest'] < sh['start']['earliest']:
+            sh['start']['latest'] = sh['start']['earliest']
     elif cls == 'LimitRecharge':
         cur, worst, prev = 0, 0, None
         for st in tour['stops']:
@@ -203,6 +211,15 @@ def run(pid, tier):
             qual = 'first-stop-with-job'
         if what == 'panic' and 'subtract with overflow' in ' '.join(r['errors']) and any(a_['type'] == 'reload' for t_ in neg_cases[i]['solution']['tours'] for s_ in t_['stops'] for a_ in s_['activities']):
             qual = 'reload-interval-underflow'
+        if b['class'] in ('ShiftEndsEarly', 'ShiftStartsLate') and tour0:
+            # the checker holds a tour against ANY shift of its vehicle (it does not use shiftIndex): a tour that left its own shift is
+            # accepted when another shift of the vehicle - e.g. one without end - spans it
+            Pm, tm = neg_cases[i]['problem'], neg_cases[i]['solution']['tours'][b['k'] - 1]
+            vt_ = next(v_ for v_ in Pm['fleet']['vehicles'] if v_['typeId'] == tm['typeId'])
+            dep_, arr_ = project.ts(tm['stops'][0]['time']['departure']), project.ts(tm['stops'][-1]['time']['arrival'])
+            if any(k_ != tm['shiftIndex'] and project.ts(sh_['start']['earliest']) <= dep_ and (not sh_.get('end') or arr_ <= project.ts(sh_['end']['latest']))
+                   for k_, sh_ in enumerate(vt_['shifts'])):
+                qual = 'another-shift-of-the-vehicle-spans-the-tour'
         if b['class'] == 'BreakRelation' and tour0 and sol0['tours'][b['k2'] - 1]['vehicleId'] == tour0['vehicleId']:
             qual = 'same-vehicle-other-shift'
         verdict.add('C12/RejectsBreach/%s%s/%s' % (b['class'], '-panic' if what == 'panic' else '', qual),
